@@ -184,7 +184,11 @@ def array_reqs(rng, node, ctx):
             else:
                 reqs.append(rng.choice(["n=s", "n=s", "a", "n=i", "o"]))     # requested as string / as something else
         elif it.kind == "sc":
-            reqs.append("n=" + other_ty(rng, it.ty))
+            if rng.random() < 0.12:
+                # a scalar (or nil) element asked for as an array / object: F (nil, or Skip) — the element is consumed exactly once
+                reqs.append(rng.choice(["a", "o"]))
+            else:
+                reqs.append("n=" + other_ty(rng, it.ty))
         elif it.kind == "arr":
             if rng.random() < 0.85:
                 reqs += ["a"] + array_reqs(rng, it, ctx) + ["c"]
@@ -244,7 +248,10 @@ def object_reqs(rng, node, ctx):
             else:
                 reqs.append(rng.choice(["g%s=s" % k, "g%s=s" % k, "A" + k, "g%s=i" % k, "O" + k]))
         elif v.kind == "sc":
-            reqs.append("g%s=%s" % (k, other_ty(rng, v.ty)))
+            if rng.random() < 0.1:
+                reqs.append(rng.choice(["A" + k, "O" + k]))          # a scalar / nil member asked for as a container
+            else:
+                reqs.append("g%s=%s" % (k, other_ty(rng, v.ty)))
         elif v.kind == "arr":
             if rng.random() < 0.85:
                 reqs += ["A" + k] + array_reqs(rng, v, ctx) + ["c"]
